@@ -122,6 +122,46 @@ func genTrace(r *rand.Rand) ([]mev, int, string) {
 	return tr, nX, class
 }
 
+// genHandover draws a hand-over execution (Model/Handed.v): the reader goroutine (0) fills a
+// pooled object (location 0) and a call's result field - a copy in memory of its own (location 1)
+// or the pooled object itself -, publishes the result, and then users (goroutines 1, 2) read the
+// result while the reader recycles the pooled object, in a generated order. The trace is built
+// here, by the harness's own code; the model builds its own from (kind, continuation).
+func genHandover(r *rand.Rand) ([]mev, int, string, string) {
+	alias := r.Intn(2) == 0
+	n := 3 // mostly the longest continuations that the shadow cells allow
+	if k := r.Intn(8); k == 0 {
+		n = 1
+	} else if k < 4 {
+		n = 2
+	}
+	res := 1
+	kind := "copy"
+	var tr []mev
+	if alias {
+		res, kind = 0, "alias"
+		tr = []mev{{op: "acc", t: 0, obj: 0, write: true}, {op: "pub", t: 0, obj: 0}}
+	} else {
+		tr = []mev{{op: "acc", t: 0, obj: 0, write: true}, {op: "acc", t: 0, obj: 0}, {op: "acc", t: 0, obj: 1, write: true}, {op: "pub", t: 0, obj: 1}}
+	}
+	var sched []string
+	recycles := 0
+	for i := 0; i < n; i++ {
+		// at most 4 accesses per location (shadow cells): the copy variant has already two on
+		// the pooled object
+		if r.Intn(2) == 0 && (alias || recycles < 2) {
+			recycles++
+			sched = append(sched, VS("recycle"))
+			tr = append(tr, mev{op: "acc", t: 0, obj: 0, write: true})
+		} else {
+			u := r.Intn(2)
+			sched = append(sched, VL(VS("read"), VN(int64(u))))
+			tr = append(tr, mev{op: "acc", t: u + 1, obj: res})
+		}
+	}
+	return tr, 2, "handover-" + kind, VL(VS("handover"), VS(kind), VL(sched...))
+}
+
 //go:noinline
 func plainRead(p *int64) int64 { return *p }
 
@@ -298,12 +338,19 @@ func childMicro(cfg *RunCfg) {
 		}()
 	}
 	for n := 0; n < cfg.N; {
-		tr, nX, class := genTrace(cfg.Rng)
-		var vs []string
-		for _, e := range tr {
-			vs = append(vs, e.val())
+		var tr []mev
+		var nX int
+		var class, v string
+		if cfg.Rng.Intn(6) == 0 {
+			tr, nX, class, v = genHandover(cfg.Rng)
+		} else {
+			tr, nX, class = genTrace(cfg.Rng)
+			var vs []string
+			for _, e := range tr {
+				vs = append(vs, e.val())
+			}
+			v = VL(vs...)
 		}
-		v := VL(vs...)
 		if seen[v] {
 			continue
 		}
